@@ -20,6 +20,14 @@ set its own values of these - one attribute at a time over every assignment of a
 scaffolds (so that the attribute runs against the name order in some assignment whatever its own order is), then
 all at once at random - and demand, for every initial order, the order the oracle derives from rank and name,
 and name_natural_key equal to that of a bare Scaffold(name); families and histories get attributes as well.
+Long names (kind "long"): the quantifier bounds neither the length of a name nor how many numbers it holds, and every
+number of a name counts ("embedded decimal numbers compare by value"), the 300th as much as the first.  Names that
+agree in their first k-1 numbers and differ in the k-th (2, 9, 10, 100; zero-padded twins; I..IV against decimals;
+chromosome, its unlocs, the next chromosome) for k from 1 to several thousand, behind long runs of text as well, are
+sorted from every initial order (a fixed handful of orders for the longest) and judged by the same oracle.
+spec = {"pad": int, "stem": str, "sep": str, "k": int, "lead": "count"|"same"|"roman"|"mixed", "tails": [str, ...]}:
+name i = "q" * pad + (stem + <number j> + sep for j = 1..k-1) + stem + tails[i]   (see long_names)
+
 attr = {"haplotype": str|None, "tag": str|None, "original_name": str|None, "original_tags": [str]|None,
         "rows": [[contig name, length, strand], ...]}   (a missing key = the constructor's default)
 """
@@ -37,8 +45,22 @@ SMALL_ALPHABET = "SIVX_012"
 WIDE_ALPHABET = "ABHISVXZabisvx0123456789_-."
 
 
+_LONG_KEYS = {}
+
+
 def okey(name):
     """independent natural key: [text, number, text, ..., text]"""
+    if len(name) > 400:  # long names are judged many times over: their oracle keys are kept (never mutated by callers)
+        got = _LONG_KEYS.get(name)
+        if got is None:
+            if len(_LONG_KEYS) > 64:
+                _LONG_KEYS.clear()
+            got = _LONG_KEYS[name] = _okey(name)
+        return got
+    return _okey(name)
+
+
+def _okey(name):
     toks = [""]
     p = 0
     n = len(name)
@@ -580,10 +602,187 @@ def long_number_sets(rng, quick):
             yield [f"{stem}{n + 10 ** (len(str(n)) - 1) - 1}", a, f"{stem}{n // 10}"], None
 
 
+# ---------------------------------------------------------------------------------------------
+# long names: the k-th number of a name counts like the first
+
+ROMAN = ["I", "II", "III", "IV"]
+TAIL_SETS = [
+    ["2", "9", "10", "100"],
+    ["10", "2", "1", "02", "20"],
+    ["2", "2_unloc_1", "2_unloc_2", "2_unloc_10", "3"],
+    ["IV", "5", "II", "10", "I"],
+    ["9.z", "10.a", "9.a2", "9.a10"],
+    ["7", "7_unloc_9", "7_unloc_10", "8", "10_unloc_1"],
+    ["III", "IV", "II_unloc_2", "II_unloc_10", "I"],
+]
+
+
+def long_prefix(spec):
+    k, lead, stem, sep = spec["k"], spec["lead"], spec["stem"], spec["sep"]
+    parts = []
+    for j in range(1, k):
+        if lead == "count":
+            num = str(j)
+        elif lead == "same":
+            num = "7"
+        elif lead == "roman":
+            num = ROMAN[j % 4]
+        else:
+            num = ROMAN[j % 4] if j % 3 == 0 else str(j % 50)
+        parts.append(stem + num + sep)
+    return "q" * spec.get("pad", 0) + "".join(parts) + stem
+
+
+def long_names(spec):
+    prefix = long_prefix(spec)
+    return [prefix + t for t in spec["tails"]]
+
+
+def some_orders(n, all_of_them):
+    if all_of_them:
+        yield from itertools.permutations(range(n))
+        return
+    ident = list(range(n))
+    yield tuple(reversed(ident))
+    yield tuple(ident)
+    for r in (1, 2):
+        yield tuple(ident[r:] + ident[:r])
+        yield tuple(reversed(ident[r:] + ident[:r]))
+    yield tuple(ident[::2] + ident[1::2])
+
+
+def check_long(spec, ranks, col, inp):
+    """names equal up to their k-th number: every initial order (the longest names: 7 orders), both entry points"""
+    names = long_names(spec)
+    n, k = len(names), spec["k"]
+    plen = len(names[0]) - len(spec["tails"][0])
+    keys = [okey(nm) for nm in names]
+    # dense oracle position of each name (names with equal keys share one)
+    order = sorted(range(n), key=lambda i: _CmpKey(keys[i]))
+    pos = [0] * n
+    for a, b in zip(order, order[1:]):
+        pos[b] = pos[a] + (1 if ocmp(keys[a], keys[b]) else 0)
+    where = (
+        f"names of {len(names[0])}..{max(map(len, names))} characters that share their first {plen} characters (= {k - 1} numbers"
+        + (f" behind {spec['pad']} letters" if spec.get("pad") else "")
+        + f", '{names[0][:24]}...{names[0][max(24, plen - 16):plen]}') and end in {spec['tails']}: the {k}{'st' if k % 10 == 1 and k % 100 != 11 else 'th'} "
+        "number of a name compares by value like the first"
+    )
+    tail_of = dict(enumerate(spec["tails"]))
+    first = None
+    for perm in some_orders(n, len(names[0]) * n <= 12000):
+        nm = [names[i] for i in perm]
+        for fn in ("scaffolds_sorted_by_name", "smart_sort_scaffolds"):
+            rk = [ranks[i] for i in perm] if (ranks and fn.startswith("smart")) else [0] * n
+            col.evaluations += 1
+            try:
+                given, out = sort_by_name(nm) if fn.startswith("scaffolds") else smart_sort(nm, rk)
+            except Exception as e:
+                col.fail(f"{fn} raised {type(e).__name__}: {str(e)[:200]} for tails in the initial order {[spec['tails'][i] for i in perm]}; {where}", inp)
+                return
+            idx_of = {id(sc): i for sc, i in zip(given, perm)}
+            if sorted(map(id, given)) != sorted(map(id, out)):
+                col.fail(f"{fn}: output is not a rearrangement of the input scaffolds; {where}", inp)
+                return
+            got = [idx_of[id(sc)] for sc in out]
+            for a, b in zip(got, got[1:]):
+                ra, rb = (rk[perm.index(a)], rk[perm.index(b)])
+                if ra != rb:
+                    if ra > rb:
+                        col.fail(f"{fn}: '...{tail_of[a]}' (rank {ra}) placed before '...{tail_of[b]}' (rank {rb}); {where}", inp)
+                        return
+                    continue
+                if pos[a] > pos[b]:
+                    col.fail(
+                        f"{fn}: '...{tail_of[a]}' placed before '...{tail_of[b]}' (oracle keys end {keys[a][-4:]} > {keys[b][-4:]}), "
+                        f"tails in the initial order {[spec['tails'][i] for i in perm]}" + (f" ranks {rk}" if any(rk) else "") + f"; {where}",
+                        inp,
+                    )
+                    return
+            res = [(rk[perm.index(i)], pos[i]) for i in got]
+            if fn.startswith("scaffolds"):
+                if first is None:
+                    first = res
+                elif res != first:
+                    col.fail(f"{fn}: the order depends on the initial order; {where}", inp)
+                    return
+
+
+class _CmpKey:
+    """sort key from ocmp"""
+
+    __slots__ = ("k",)
+
+    def __init__(self, k):
+        self.k = k
+
+    def __lt__(self, other):
+        return ocmp(self.k, other.k) < 0
+
+
+def long_specs(quick, rng):
+    """(spec, ranks)"""
+    if quick:
+        ladder = [1, 2, 100, 255, 256, 257, 258, 300, 600, 2500]
+    else:
+        ladder = sorted({1, 2, 3, 17, 100, 300, 1000, 3000, 20000} | {2**e + d for e in range(3, 15) for d in (-1, 0, 1, 2)} | {rng.randrange(2, 6000) for _ in range(20)})
+    stems = [("ctg", "."), ("", "."), ("SUPER_", "_"), ("s", "-"), ("H", "_x")]
+    leads = ["count", "same", "roman", "mixed"]
+    n = 0
+    for k in ladder:
+        for ti, tails in enumerate(TAIL_SETS[:2] if quick else TAIL_SETS):
+            if quick and ti == 1 and k not in (257, 600):
+                continue
+            if not quick and ((k > 2100 and (ti + k) % 3) or (300 < k <= 2100 and (ti + k) % 2)):  # long names: every second tail set, the longest: every third
+                continue
+            n += 1
+            stem, sep = stems[n % len(stems)] if not quick else stems[(n // 3) % 2]
+            lead = leads[n % 4] if not (quick and k == 257) else "count"
+            if k > 5000:
+                tails = tails[:4]
+            ranks = [1, 1, 0, 1, 1][: len(tails)] if n % 4 == 0 else None
+            yield {"pad": 0, "stem": stem, "sep": sep, "k": k, "lead": lead, "tails": tails}, ranks
+    # one number behind a long run of text (and behind text + numbers)
+    for pad in (300, 5000) if quick else (250, 255, 256, 257, 511, 512, 513, 1000, 1024, 4096, 10000, 65536, 100000):
+        yield {"pad": pad, "stem": "_", "sep": ".", "k": 1, "lead": "count", "tails": TAIL_SETS[0]}, None
+        if not quick and pad <= 4096:
+            yield {"pad": pad, "stem": "c", "sep": "_", "k": 40, "lead": "mixed", "tails": TAIL_SETS[2]}, None
+
+
+def check_long_list(k, n_names, seed, col, inp):
+    """many long names in one assembly: numbers 1..n_names as the k-th number, one shuffled initial order"""
+    rng = random.Random(seed)
+    spec = {"pad": 0, "stem": "ctg", "sep": ".", "k": k, "lead": "count", "tails": [str(m) for m in range(1, n_names + 1)]}
+    names = long_names(spec)
+    order = list(range(n_names))
+    rng.shuffle(order)
+    for fn in ("scaffolds_sorted_by_name", "smart_sort_scaffolds"):
+        col.evaluations += 1
+        try:
+            given, out = sort_by_name([names[i] for i in order]) if fn.startswith("scaffolds") else smart_sort([names[i] for i in order], [2] * n_names)
+        except Exception as e:
+            col.fail(f"{fn} raised {type(e).__name__}: {str(e)[:200]} on {n_names} names of {k} numbers each", inp)
+            return
+        idx_of = {id(sc): i for sc, i in zip(given, order)}
+        got = [idx_of.get(id(sc)) for sc in out]
+        if got != list(range(n_names)):
+            at = next(i for i, g in enumerate(got) if g != i)
+            col.fail(
+                f"{fn}: {n_names} names 'ctg1.ctg2. ... .ctg{k - 1}.ctg<m>', m = 1..{n_names} (equal up to their {k}th number): after sorting, the last "
+                f"numbers run {[None if g is None else g + 1 for g in got[max(0, at - 1): at + 4]]} from position {at}, expected {list(range(max(1, at), at + 5))}",
+                inp,
+            )
+            return
+
+
 def replay(inp):
     col = Collector("replay")
     rng = random.Random(0)
-    if inp["kind"] == "set":
+    if inp["kind"] == "long":
+        check_long(inp["spec"], inp.get("ranks"), col, inp)
+    elif inp["kind"] == "long-list":
+        check_long_list(inp["k"], inp["n_names"], inp["seed"], col, inp)
+    elif inp["kind"] == "set":
         names = inp["names"]
         if len(names) <= 5:
             check_set(names, inp.get("ranks"), col)
@@ -636,7 +835,10 @@ def run(tier, seed, **opts):
         "differ in haplotype / tag / original_name / original_tags / rows as well: every assignment of 3-4 values of one attribute "
         "to the scaffolds of 3-4 name sets x all initial orders, all attributes at random on multisets of <= 5 and lists of <= 30 "
         "names, families with cycling attribute values, attributes assigned in place between sorts (histories): the order is the "
-        "oracle's order of (rank, name) and name_natural_key that of a bare scaffold of the name; "
+        "oracle's order of (rank, name) and name_natural_key that of a bare scaffold of the name; (7) long names: 4-5 names that "
+        "agree in their first k-1 numbers (decimal, I..IV or mixed, behind several stems / separators, or behind up to 100 000 "
+        "letters) and differ in the k-th (2 9 10 100, zero-padded twins, unlocs, numerals against decimals), k = 1 .. 2500 (thorough: "
+        "around every power of two to 16 384, 20 000), every initial order (longest names: 7 orders), and 30-120 such names in one sort; "
         "non-trivial = distinct name multisets / pairs sorted"
     )
     # (1) exhaustive small alphabet
@@ -772,6 +974,24 @@ def run(tier, seed, **opts):
             break
         check_set(chosen, ranks, col)
         col.distinct.add((tuple(sorted(chosen)), tuple(ranks) if ranks else None))
+    # (7) long names: the k-th number counts like the first
+    n_long = 0
+    for spec, ranks in long_specs(quick, rng):
+        if col.full:
+            break
+        inp = {"kind": "long", "spec": spec, "ranks": ranks}
+        check_long(spec, ranks, col, inp)
+        n_long += 1
+        col.distinct.add(("long", repr(spec), repr(ranks)))
+        if spec["k"] == 257 and n_long < 12 and not any(x.get("kind") == "long" for x in col.samples):
+            col.samples.append(inp)
+    for k, n_names in ((300, 40),) if quick else ((2, 60), (257, 120), (300, 40), (1030, 60), (5000, 30)):
+        if col.full:
+            break
+        inp = {"kind": "long-list", "k": k, "n_names": n_names, "seed": seed}
+        check_long_list(k, n_names, seed, col, inp)
+        n_long += 1
+        col.distinct.add(("long-list", k, n_names))
     # (4) history: the same objects keyed and sorted, renamed / re-ranked in place, keyed and sorted again
     n_hist = 0
     for stages in history_cases(quick, rng, names):
@@ -787,6 +1007,7 @@ def run(tier, seed, **opts):
         bounds=f"all {len(names)} names of length <= {max_len} over {len(SMALL_ALPHABET)} characters; all pairs of length <= {pair_len}"
         + ("" if quick else " (length-4 pairs: every 7th)")
         + f"; {n_sets} multisets of <= 5 names x all permutations; {len(PREFIXES) * 3} families up to n = 120; 18 nematode sets; "
-        f"{n_hist} histories of 2-4 stages on the same <= 6 scaffold objects; {n_attr} name sets / lists / families with attributes other than name and rank",
+        f"{n_hist} histories of 2-4 stages on the same <= 6 scaffold objects; {n_attr} name sets / lists / families with attributes other than name and rank; "
+        f"{n_long} sets / lists of long names (up to {2500 if quick else 20000} numbers or {5000 if quick else 100000} letters in front of the number that decides)",
         exhaustive=True,
     )
